@@ -39,7 +39,15 @@ MANIFEST = {
             "application data is never enabled before completion and never delivered without it, the first deviation is final "
             "(first_deviation_is_final, no_data_before_completion); after completion no input re-enters the handshake, the attempt is "
             "answered by a no_renegotiation warning (<=1.2) or fatal unexpected_message (1.3) and _handshakeStart raises "
-            "(renegotiation_refused, renegotiation_attempt_answer, handshakeStart_open_raises); four regression theorems pin the "
+            "(renegotiation_refused, renegotiation_attempt_answer, handshakeStart_open_raises); the post-handshake phase (readAsync "
+            "dispatch by role, TLS 1.3 post-handshake authentication flights, KeyUpdate, NewSessionTicket, <=1.2 renegotiation "
+            "attempts, heartbeat, the close-wait loop of _decrefAsync) is part of the automaton and proved, for event sequences of "
+            "any length, to stay inside the separately written post-handshake grammar postSpec unless a fatal alert is sent, and "
+            "conversely every deviation is fatal (post_handshake_in_grammar, post_handshake_deviation_fatal); records are modelled "
+            "as pieces (whole / head / tail of a handshake message) with the defragmenter, the TLS 1.3 interleaving rule, the "
+            "alignment checks of _getMsg and of the first hello, and the <=1.2 check in _getFinished, and whenever read keys "
+            "change nothing is buffered and the triggering message ends its record (no_message_spans_key_change, all versions); "
+            "regression theorems pin the "
             "order defects this check found (server took a client NewSessionTicket, server dropped a mid-handshake ClientHello, "
             "client NewSessionTicket leniency both ways). Tie: single (quick) and additionally double (thorough) deviations of "
             "honest traces replayed to live endpoints through a real peer with an edited send path; verdict, alert, position, "
@@ -47,9 +55,10 @@ MANIFEST = {
             "grammar compared on every received sequence.",
     "note": "Trusted: Lean kernel (axioms propext, Classical.choice, Quot.sound), the hand extraction of the automaton from the "
             "flow code (its fidelity is what the correspondence samples: it caught three concurrent code changes while being "
-            "built), the lab, the Python RFC grammar. Not modelled: message contents (signatures, verify_data, extensions; a "
-            "foreign-content message the automaton accepts ends the exact comparison there), fragmentation / the TLS 1.3 "
-            "interleaving rule, early data, post-handshake authentication, heartbeat policy other than peer_allowed_to_send, "
+            "built), the lab, the Python RFC grammar. Not modelled: message contents (signatures, verify_data, extensions, PHA request contexts; "
+            "a foreign-content message the automaton accepts ends the exact comparison there), fragments beyond head/tail of one "
+            "message (bytes glued to an unrelated fragment are the class `garbled`), early data, client_cert_required policy, "
+            "heartbeat policy other than peer_allowed_to_send, "
             "SSLv2-framed ClientHello, TACK, DTLS. A record under foreign keys is compared as a class (never proceeds).",
     "technique": "Lean 4 proof: generic induction + kernel-evaluated bounded exploration over an explicit enumeration; "
                  "differential correspondence automaton vs live endpoints under edited peer traces; RFC grammar oracle",
@@ -237,6 +246,7 @@ class Editor(object):
         self.pending_q = []               # log entries of messages sitting in the queue
         self.held = None
         self.span = None                  # message whose record will also carry the head of the next one
+        self.strip_next = 0               # bytes of the next handshake message that went out early
         self.frag_rest = None
         self.applied = set()
         self.na = []                      # edits that could not be applied (with reason)
@@ -464,6 +474,7 @@ class Editor(object):
         hold = False
         frag = False
         span = False
+        headfirst = False
         state = None
         for e in mine:
             op = e[0]
@@ -485,6 +496,15 @@ class Editor(object):
                 frag = True
             elif op == "span":
                 span = True
+            elif op == "headfirst":
+                headfirst = True
+            elif op == "realku":
+                # a genuine KeyUpdate before this message: sent, then the peer's write keys move on
+                from tlslite.messages import KeyUpdate
+                self._direct(KeyUpdate().create(0), "insert")
+                sess = conn.session
+                sess.cl_app_secret, sess.sr_app_secret = conn._recordLayer.calcTLS1_3KeyUpdate_reciever(
+                    sess.cipherSuite, sess.cl_app_secret, sess.sr_app_secret)
             elif op == "epoch":
                 state = self._other_state(e[2])
                 if state is None:
@@ -498,6 +518,29 @@ class Editor(object):
             hstate = held[1]
         for (m, o, uh) in before:
             self._emit(via, m, o, hstate, uh)
+        if self.strip_next and ct == 22 and not skip:
+            # the first bytes of this message went out already (headfirst): send the rest only
+            from tlslite.messages import Message
+            body = bytearray(msg.write())
+            n = self.strip_next
+            self.strip_next = 0
+            if bytes(body[:n]) == b"\x14\x00\x00":
+                self._flush()
+                conn._handshake_hash.update(body)
+                ents = self._log(msg, "own")
+                ents[0]["part"] = "tail"
+                drain(self.cls._sendMsg(conn, Message(22, body[n:]), True, False))
+                return []
+            self.na.append((("headfirst",), "next message is not a Finished"))
+        if headfirst and not skip:
+            # the type and the first two length bytes of the Finished that follows (always 14 00 00)
+            # are sent now, before this message, under the current keys
+            from tlslite.messages import Message
+            self._flush()
+            self.emitted.append({"kind": "finished", "epoch": self.epoch_now(), "plus": False, "origin": "own",
+                                 "part": "head"})
+            drain(self.cls._sendMsg(conn, Message(22, bytearray(b"\x14\x00\x00")), True, False))
+            self.strip_next = 3
         if hold and not skip:
             self.held = (msg, (self.epoch_now(), conn._recordLayer._writeState), via)
         elif not skip and span and ct == 22:
@@ -611,6 +654,15 @@ class Watch(object):
         conn._getNextRecord = gnr
         conn._changeReadState = crs
         conn._handshakeDone = done
+        self.in_pha = False
+        orig_pha = conn._handle_srv_pha
+
+        def pha(cert):
+            self.in_pha = True
+            for r in orig_pha(cert):
+                yield r
+            self.in_pha = False
+        conn._handle_srv_pha = pha
         rl = conn._recordLayer
         orig_ku = rl.calcTLS1_3KeyUpdate_sender
 
@@ -1131,6 +1183,11 @@ def targeted_deviations(orig, victim, ver=None):
         devs.append([("replace", j, "no_certificate_alert")])
         if "certificate_verify" in orig:
             devs.append([("replace", j, "no_certificate_alert"), ("skip", orig.index("certificate_verify"))])
+    for j, k in enumerate(orig):
+        # the head of Finished travels before the message that precedes it (<= 1.2: before the CCS,
+        # i.e. a Finished that starts under the old keys)
+        if k == "finished" and j > 0:
+            devs.append([("headfirst", j - 1)])
     if ver == "tls13":
         # RFC 8446 5.1: the messages before a key change must end their record; here the record also
         # carries the first bytes of a following handshake message
@@ -1214,6 +1271,22 @@ def evaluate(ctx, pending, scn, victim, edits, bank, kw, label="dev"):
                                   "(RFC 8446 5.1: handshake messages must not span key changes)"
                                   % (victim, scn_name(scn), e["kind"]), dict(summary, stage="oracle-align"))
                 break
+    heads = [i for i, e in enumerate(obs["emitted"]) if e.get("part") == "head"]
+    for i in heads:
+        tails = [j for j in range(i + 1, len(obs["emitted"])) if obs["emitted"][j].get("part") == "tail"
+                 and obs["emitted"][j]["kind"] == obs["emitted"][i]["kind"]]
+        if tails and obs["emitted"][tails[0]]["epoch"] != obs["emitted"][i]["epoch"]:
+            # the message started under other keys than it ended: the victim must never hand it out
+            n_whole = len([x for x in obs["emitted"][:tails[0] + 1] if x.get("part") != "head"])
+            if len(obs["received"]) >= n_whole and obs["received"][n_whole - 1] == obs["emitted"][i]["kind"] \
+                    and (obs["hs"] == "complete" or obs["acc"] >= n_whole - len(
+                        [x for x in obs["emitted"][:tails[0]] if x["kind"] == "ccs" and p["ver"] == "tls13"])):
+                ctx.violation("c06:message-spans-key-change:%s:%s" % (victim, p["ver"]),
+                              "%s (%s) accepted a %s whose first bytes arrived under key epoch %d and whose rest "
+                              "arrived under epoch %d" % (victim, scn_name(scn), obs["emitted"][i]["kind"],
+                                                          obs["emitted"][i]["epoch"], obs["emitted"][tails[0]]["epoch"]),
+                              dict(summary, stage="oracle-span"))
+            break
     if obs["hs"] == "complete":
         prefix = obs["received"][:obs["recs_at_done"]]
         if not rfc_allowed(p, prefix):
@@ -1528,7 +1601,10 @@ def replay(ctx, rep):
     bank = bank_for(scn["ver"])
     kw = prime(scn) if scn.get("res") else {}
     pending = []
-    if inp.get("stage") == "renegotiation":
+    if inp.get("stage") == "post" or inp.get("script"):
+        post_case(ctx, pending, scn, victim, [tuple(a) for a in inp.get("script", [])], bank, kw,
+                  tuple(tuple(e) for e in inp.get("flight_edits", [])))
+    elif inp.get("stage") == "renegotiation":
         renegotiation_case(ctx, pending, scn, victim, bank, kw)
     else:
         edits = [tuple(e) for e in inp.get("edits", [])]
@@ -1668,7 +1744,13 @@ def post_case(ctx, pending, scn, victim, script, bank, kw, flight_edits=()):
                 reader["active"] = False
                 post = classify(v.exc)
                 return
-            return                      # stalled: nothing more to read right now
+            # stalled: nothing more to read right now.  readAsync fixes the acceptable handshake types
+            # when it starts, so between messages the application's next read is a fresh call; only
+            # inside an authentication flight the same call has to go on
+            if not w.in_pha:
+                v.gen.close()
+                reader["active"] = False
+            return
 
     for act in script:
         try:
@@ -1840,6 +1922,8 @@ def post_scripts(scn, victim, thorough, rng):
                 devs.append([("frag", j)])
                 if j + 1 < n:
                     devs.append([("span", j)])
+            for j in range(1, n):
+                devs.append([("realku", j)])
             for j in range(n + 1):
                 for k in (ins if thorough else rng.sample(ins, 3)):
                     devs.append([("insert", j, k)])
